@@ -81,6 +81,7 @@ class Interp:
         self.notes = []
         self.loop_reports = []
         self.depth = 0
+        self.call_hook = None
         from . import stdmodel
         self.std = stdmodel.Models(self)
         from . import loops
@@ -1211,6 +1212,10 @@ class Interp:
 
     def call(self, e, st, args):
         tgt = self.resolve_callee(e, st, args)
+        if tgt is not None and self.call_hook is not None:
+            r = self.call_hook(tgt, e, st, args)
+            if r is not None:
+                return r
         # trait objects: contract model
         if args and isinstance(args[0], DynV) and e.get("trait") in self.F.traits or (args and isinstance(args[0], DynV) and tgt is None):
             r = self.std.dyn_call(e, st, args)
